@@ -66,12 +66,14 @@ def tables(n=12, index="range", wide=False):
     else:
         df3.index = pd.RangeIndex(n, 2 * n)
         df4.index = pd.RangeIndex(n - 1, n - 1 + len(df4))  # first label == last label of df
+    arr = pd.DataFrame({"z": i * 1.0 + 100, "k": (i * 3) % 7 + 0.5, "a": (i * 7 + 3) % 4 + 0.0, "m": -1.0 * i}, index=pd.RangeIndex(n))
     if wide:
+        arr.insert(2, "zz_unused_arr", i * 2.5)
         for k, fr in enumerate((df, df2, df3, df4)):
             fr.insert(1, f"zz_unused{k}", np.arange(len(fr)) * 1.5)
             fr[f"zz_unused_s{k}"] = "pad"
             fr.insert(0, f"zz_unused_i{k}", np.arange(len(fr))[::-1].copy())
-    return {"df": df, "df2": df2, "df3": df3, "df4": df4}
+    return {"df": df, "df2": df2, "df3": df3, "df4": df4, "arr": arr}
 
 
 def compositions(n, max_parts=None, with_empty=False):
@@ -110,6 +112,10 @@ def make_lazy(pdf, layout, which=0):
     'cuts': spec = (cuts for df/df3, cuts for df2) as tuples of piece lengths (0 = empty partition)."""
     import dask_expr as dx
 
+    if which == "arr":
+        # array-backed source with unsorted column labels
+        k = layout.spec if layout.kind == "np" else len(layout.spec[0])
+        return dx.from_array(pdf.values, chunksize=max(1, -(-len(pdf) // max(1, k))), columns=list(pdf.columns))
     if layout.kind == "np":
         out = dx.from_pandas(pdf, npartitions=layout.spec, sort=True)
         if not layout.known:
@@ -174,7 +180,7 @@ def build_context(tabs, layout, lazy=True, knobs=None):
         return T({k: v.copy() for k, v in tabs.items()}, False, knobs)
     frames = {}
     for n, (k, v) in enumerate(tabs.items()):
-        frames[k] = make_lazy(v, layout, n)
+        frames[k] = make_lazy(v, layout, "arr" if k == "arr" else n)
     return T(frames, True, knobs)
 
 
@@ -386,6 +392,9 @@ P("gb_value_counts", lambda t: t.df.groupby("a").f.value_counts(), order_free=Tr
 P("gb_min_proj", lambda t: t.df.groupby("a").min()[["u", "b"]])
 P("gb_after_filter", lambda t: t.df[t.df.u > 5].groupby("a").b.sum())
 P("gb_then_filter", lambda t: (lambda g: g[g > 20])(t.df.groupby("a").u.sum()))
+P("gb_cov", lambda t: t.df.groupby("a")[["b", "u"]].cov())
+P("gb_cov_nonan", lambda t: t.df.groupby("a")[["f", "u"]].cov())
+P("gb_corr_nonan", lambda t: t.df.groupby("f")[["a", "u"]].corr())
 P("gb_bool_key", lambda t: t.df.groupby("d").u.mean())
 P("gb_prod", lambda t: t.df.groupby("a").f.prod())
 # --- merge
@@ -494,7 +503,7 @@ P("concat_touching_loc", lambda t: t.dd.concat([t.df[["a", "u"]], t.df4[["a", "u
 P("concat_touching_sum", lambda t: t.dd.concat([t.df, t.df4]).u.sum())
 P("set_index_presorted_dups", lambda t: t.df.set_index("g")[["u"]].reset_index().sort_values(["g", "u"]).reset_index(drop=True), tags={"sort"})
 P("set_index_presorted_dups_raw", lambda t: t.df.set_index("g")[["u", "a"]], tags={"sort"}, order_free=True)
-P("set_index_presorted_loc", lambda t: t.df.set_index("g").loc[2:4][["u"]], tags={"sort"}, order_free=True)
+P("set_index_presorted_loc", lambda t: t.df.set_index("g").loc[2:2][["u"]], tags={"sort"}, order_free=True)
 P("sort_presorted_dups", lambda t: t.df.sort_values(["g", "u"], ascending=[True, False])[["g", "u"]], tags={"sort"})
 P("sort_presorted_cumsum", lambda t: t.df.sort_values(["g", "u"], ascending=[True, False]).u.cumsum(), tags={"sort"})
 # --- broadcast joins with the small frame on the left, colliding column names
@@ -503,6 +512,18 @@ P("merge_small_left_right", lambda t: t.df2.merge(t.df, on="a", how="right", **t
 P("merge_small_left_cols", lambda t: t.df2.merge(t.df, on="a", how="inner", **t.kw(broadcast=True))[["b_x", "b_y", "c_x", "w"]], order_free=True, index_free=True)
 P("concat_reordered_cols", lambda t: t.dd.concat([t.df[["a", "b", "u"]], t.df3[["u", "a"]], t.df4[["b", "a", "u"]]]))
 P("concat_narrow_first", lambda t: t.dd.concat([t.df[["u"]], t.df3[["a", "u", "b"]]]))
+# --- array-backed source with unsorted labels; chained merges with literal suffixed names
+P("arr_diff", lambda t: t.arr.z - t.arr.a)
+P("arr_two_cols", lambda t: t.arr[["a", "z"]])
+P("arr_shared", lambda t: (t.arr.z * 2).sum() + t.arr.k.sum())
+P("arr_gb", lambda t: t.arr.groupby("a").m.sum())
+P("arr_filter_proj", lambda t: t.arr[t.arr.k > 2][["m", "z"]])
+P("arr_assign", lambda t: t.arr.assign(q=t.arr.z + t.arr.m)[["q", "k"]])
+P("merge_chain_literal_suffix", lambda t: t.df.merge(t.df2.merge(t.df2.rename(columns={"w": "w2"}), on="a")[["a", "b_x", "w"]], on="a")[["b_x", "f"]], order_free=True, index_free=True)
+P("merge_chain_literal_suffix_right", lambda t: t.df2.merge(t.df2.rename(columns={"w": "w2"}), on="a")[["a", "b_y", "w"]].merge(t.df, on="a")[["b_y", "f", "w"]], order_free=True, index_free=True)
+P("merge_chain_three", lambda t: t.df[["a", "u"]].merge(t.df2[["a", "w"]], on="a").merge(t.df4[["a", "f"]], on="a")[["u", "f"]], order_free=True, index_free=True)
+P("merge_key_suffixed_proj", lambda t: t.df.merge(t.df2, left_on="f", right_on="w")[["a_y", "u_x"]], order_free=True, index_free=True)
+P("merge_shared_three_consumers", lambda t: (lambda m: m.b_x.sum() + m.w.max() + m.u_y.min())(t.df.merge(t.df2, on="a")))
 # --- hash shuffles (layout is a function of the key values only)
 P("shuffle_col", lambda t: t.df.shuffle("a") if t.lazy else t.df, order_free=True, tags={"shuffle"})
 P("shuffle_more", lambda t: t.df.shuffle("a", npartitions=7) if t.lazy else t.df, order_free=True, tags={"shuffle"})
